@@ -65,7 +65,10 @@ func (x *hW) deathStep(op int) {
 }
 
 func HC06_TargetDeath() {
-	prof, capInc, relInc := hConfig()
+	prof, capInc, relInc := hConfig2()
+	if vTier() == 0 {
+		prof, capInc, relInc = hConfig()
+	}
 	x := hNew(prof, 6, capInc, relInc)
 	x.prefix(hDeathPrefixes[vChoice("prefix", len(hDeathPrefixes))])
 	steps := 1 + vTier()
